@@ -375,6 +375,13 @@ def _digits_only_helper(model, unit, call):
     return False
 
 
+#: parsers whose field is fixed-width, so the padded spelling *is* the canonical one (the renderer writes it; C07.f checks the pair)
+ZERO_PAD_CANONICAL = {
+    ("passlib.handlers.cisco", "cisco_type7.from_string"): "salt is rendered '%02d' and read as exactly 2 characters",
+    ("libpass.inspect.bcrypt", "inspect_bcrypt_hash"): "cost is rendered ':02'; the string is handed to the bcrypt library as it stands, and the project's tests use the 1-digit spelling too",
+}
+
+
 def rule_h(model, rep):
     """a number in a hash string has one spelling; int() also accepts '+1000', ' 1000', '1_000' and non-ASCII digits, so a parser that
     only calls int() (even after a zero-padding test) lets an altered string through unless the text is restricted to ASCII digits first
@@ -400,7 +407,7 @@ def rule_h(model, rep):
             nodes = list(walk_no_nested(fn))
             # regexes the function matches with: str patterns using \\d admit non-ASCII digits
             cref = (un, q.rsplit(".", 1)[0]) if "." in q else None
-            rx_bad, rx_seen = [], 0
+            rx_bad, rx_seen, rx_pats = [], 0, []
             for attr, how in _regex_uses(fn):
                 cands = []
                 if cref:
@@ -421,14 +428,36 @@ def rule_h(model, rep):
                     if pat is UNKNOWN:
                         continue
                     rx_seen += 1
+                    try:
+                        _, flags = fold_regex(model, ru, node, cls=cr)
+                    except Exception:
+                        flags = 0
+                    rx_pats.append((f"{cr[1] + '.' if cr else ''}{attr}", pat, flags))
                     if isinstance(pat, str):
-                        try:
-                            _, flags = fold_regex(model, ru, node, cls=cr)
-                        except Exception:
-                            flags = 0
                         if _unicode_digit_groups(pat, flags):
                             rx_bad.append(f"{cr[1] + '.' if cr else ''}{attr}")
             from_group = {t.id for a in nodes if isinstance(a, ast.Assign) and (".group(" in ast.unparse(a.value) or ".groupdict(" in ast.unparse(a.value)) for tt in a.targets for t in ast.walk(tt) if isinstance(t, ast.Name)}
+            # name -> regex group it holds: x = m.group('g'); a, b = m.group(1, 2); groups = m.groupdict() ... groups['g']
+            group_of = {}
+            for a in nodes:
+                if isinstance(a, ast.Assign) and isinstance(a.value, ast.Call) and isinstance(a.value.func, ast.Attribute) and a.value.func.attr == "group":
+                    gs = [x.value for x in a.value.args if isinstance(x, ast.Constant)]
+                    t0 = a.targets[0]
+                    if isinstance(t0, ast.Name) and len(gs) == 1:
+                        group_of[t0.id] = gs[0]
+                    elif isinstance(t0, ast.Tuple) and len(t0.elts) == len(gs):
+                        for t, g in zip(t0.elts, gs):
+                            if isinstance(t, ast.Name):
+                                group_of[t.id] = g
+
+            def group_id(e):
+                if isinstance(e, ast.Call) and isinstance(e.func, ast.Attribute) and e.func.attr == "group" and len(e.args) == 1 and isinstance(e.args[0], ast.Constant):
+                    return e.args[0].value
+                if isinstance(e, ast.Subscript) and isinstance(e.slice, ast.Constant) and isinstance(e.value, ast.Name) and e.value.id in from_group:
+                    return e.slice.value
+                if isinstance(e, ast.Name):
+                    return group_of.get(e.id)
+                return None
             for c in ints:
                 arg = ast.unparse(c.args[0])
                 base = arg.split("[")[0].split(".")[0]
@@ -439,7 +468,28 @@ def rule_h(model, rep):
                 via_regex = (".group(" in arg or base in from_group) and rx_seen and not rx_bad
                 n += 1
                 s = site(un, q) + f" int({arg})"
-                if rerender or explicit or helper or via_regex:
+                # zero padding: '01000' is another spelling of 1000
+                gid = group_id(c.args[0])
+                padded = None
+                if via_regex and gid is not None:
+                    from pv.lang import group_dfa
+                    for rn, pat, flags in rx_pats:
+                        try:
+                            d = group_dfa(pat, flags, gid)
+                        except Exception:
+                            d = None
+                        if d is not None and (d.accepts("01") or d.accepts("00") or d.accepts("007")):
+                            padded = rn
+                zero_test = any(isinstance(x, ast.Call) and isinstance(x.func, ast.Attribute) and x.func.attr == "startswith" and ast.unparse(x.func.value) == arg and x.args and
+                                (model.fold(unit, x.args[0]) == "0" or ast.unparse(x.args[0]) in ("_UZERO", "uh._UZERO", "'0'")) for x in nodes)
+                exempt = ZERO_PAD_CANONICAL.get((un, q))
+                if (rerender or explicit or helper or via_regex) and padded and not (zero_test or rerender or exempt):
+                    rep.violation(R, s, f"group <{gid}> of {padded} also matches '01' / '007'", "the field accepts zero-padded spellings of the same number and nothing rejects them afterwards",
+                                  witness="fshp.verify(pw, h.replace('|16|', '|016|')) / bcrypt_sha256 'v=02' / libpass '$5$rounds=01000$': an altered stored string verifies the original password")
+                elif (explicit and not (zero_test or rerender or exempt)):
+                    rep.violation(R, s, f"int({arg}) after a digits test only", "digits-only text still admits zero-padded spellings and nothing rejects them",
+                                  witness="an altered stored string ('5' -> '05') verifies the original password")
+                elif rerender or explicit or helper or via_regex:
                     rep.hold(R, s, "text restricted to ASCII digits (explicit test / digits-only helper / [0-9] or bytes regex group) or compared with the re-rendered number")
                 else:
                     why = f"regex {rx_bad} uses \\d on text, which also matches non-ASCII decimal digits" if rx_bad and (".group(" in arg or base in from_group) else \
